@@ -163,15 +163,31 @@ type sigKit struct {
 	hk []byte
 	kn enc.Name
 	tm *dummy.Timer
+	cache map[string]ndn.Signer
 }
 
 func newSigKit() *sigKit {
 	ek, _ := ecdsa.GenerateKey(elliptic.P256(), rand.Reader)
 	rk, _ := rsa.GenerateKey(rand.Reader, 2048)
-	return &sigKit{ek, rk, []byte("0123456789abcdef"), nm("/key/KEY/1"), dummy.NewTimer()}
+	return &sigKit{ek: ek, rk: rk, hk: []byte("0123456789abcdef"), kn: nm("/key/KEY/1"), tm: dummy.NewTimer()}
 }
 
+// signer instances are reused across packets (a signer must not carry state from one packet to the next)
 func (k *sigKit) signer(name string) ndn.Signer {
+	if k.cache == nil {
+		k.cache = map[string]ndn.Signer{}
+	}
+	if s, ok := k.cache[name]; ok {
+		return s
+	}
+	s := k.newSigner(name)
+	if s != nil {
+		k.cache[name] = s
+	}
+	return s
+}
+
+func (k *sigKit) newSigner(name string) ndn.Signer {
 	switch name {
 	case "sha256":
 		return sec.NewSha256Signer()
@@ -451,6 +467,19 @@ func TestTlvShapes(t *testing.T) {
 			}
 			if len(raw) > 6 { // three segments
 				if _, _, ok := decodeOK(enc.NewWireReader(enc.Wire{raw[:2], raw[2 : len(raw)/2], raw[len(raw)/2:]})); !ok {
+					seg = false
+				}
+			}
+			// many small segments: elements and single values span three and more segments
+			for _, sz := range []int{1, 3, 7} {
+				if sz == 1 && len(raw) > 400 {
+					continue
+				}
+				var ww enc.Wire
+				for p := 0; p < len(raw); p += sz {
+					ww = append(ww, raw[p:min(p+sz, len(raw))])
+				}
+				if _, _, ok := decodeOK(enc.NewWireReader(ww)); !ok {
 					seg = false
 				}
 			}
